@@ -228,12 +228,17 @@ def eval_e2e(case):
         # Colebrook-White / Swamee-Jain are undefined for laminar flow; whether an iterate enters that region depends
         # on round-off (see gen.hyd_case)
         return Outcome(discard="verdict_mismatch_turbulent_friction_model")
+    if sts[0].status != sts[1].status and "rejected" in (sts[0].status, sts[1].status):
+        # one engine ended in the mirror root with negative absolute pressures (recipe.solve): on such over-loaded nets the
+        # iteration is erratic, which root is reached is no statement about the engines
+        return Outcome(discard="one_engine_in_negative_pressure_root")
     if sts[0].status != sts[1].status:
         sig = "C07.e2e.verdict"
         okn = nets[0] if sts[0].ok else (nets[1] if sts[1].ok else None)
         if okn is not None:
             for t in ("pump", "compressor"):
-                if t in okn and len(okn[t]) and (okn["res_" + t].mdot_from_kg_per_s.abs() < 1e-9).any():
+                # zero OR reverse flow (same criterion as for differing results below): the lift is discontinuous there
+                if t in okn and len(okn[t]) and (okn["res_" + t].mdot_from_kg_per_s.fillna(1.0) <= 1e-9).any():
                     sig = "C07.e2e.verdict.zero_flow_pump"
         f.append(Finding("verdict", sig, {"numba": sts[0].status, "numpy": sts[1].status,
                                                         "exc": [repr(s.exc)[:150] for s in sts]}))
@@ -271,7 +276,12 @@ def history_case(draw):
     else:
         rec, opts = draw(gen.hyd_case(max_n=7, tight=False, allow_oos=draw(st.booleans())))
         opts["mode"] = "hydraulics"
-    steps = draw(st.lists(st.tuples(st.sampled_from(["scale_value", "scale_value", "scaling", "toggle", "same"]),
+    # loads, and parameters whose change leaves the structure of the system matrix as it is (fluid temperature, a fixed
+    # pressure, a pipe length)
+    # "switch" changes the topology (a valve / a pipe is switched): that call asks for fresh internal data
+    # (reuse_internal_data=False, still only_update_hydraulic_matrix=True), the following ones reuse again
+    steps = draw(st.lists(st.tuples(st.sampled_from(["scale_value", "scale_value", "scaling", "toggle", "same", "temperature",
+                                                     "pressure", "length", "switch", "setpoint"]),
                                     st.integers(0, 30), st.sampled_from([0.0, 0.3, 0.5, 0.9, 1.1, 1.5, 2.0])),
                           min_size=2, max_size=6))
     return {"kind": "history", "recipe": rec, "options": opts, "steps": [list(s) for s in steps]}
@@ -289,7 +299,58 @@ def eval_history(case):
     changed_steps = 0
     statuses = []
     for step, k, fac in [("same", 0, 1.0)] + [tuple(s) for s in case["steps"]]:
-        if loads and step != "same":
+        reuse = True
+        if step == "switch":
+            sw = [e for e in rec["elements"] if (e["table"] == "valve" and e["et"] == "ju") or e["table"] == "pipe"]
+            if sw:
+                e = sw[k % len(sw)]
+                col = "opened" if e["table"] == "valve" else "in_service"
+                e[col] = not e.get(col, True)
+                net[e["table"]].at[e["index"], col] = e[col]
+                changed_steps += 1
+                reuse = False
+        elif step == "setpoint":
+            # set-points of controlling components (structure unchanged)
+            sp = [(e, c_) for e in rec["elements"] for c_ in {"compressor": ["pressure_ratio"], "flow_control": ["controlled_mdot_kg_per_s", "control_active"],
+                                                               "press_control": ["controlled_p_bar"], "pump": ["std_type"],
+                                                               "circ_pump_pressure": ["plift_bar"], "heat_exchanger": ["qext_w"]}.get(e["table"], [])]
+            if sp:
+                e, c_ = sp[k % len(sp)]
+                if c_ == "control_active":
+                    e[c_] = not e.get(c_, True)
+                elif c_ == "std_type":
+                    e[c_] = {"P1": "P2", "P2": "P3", "P3": "P1"}.get(e[c_], e[c_])
+                elif c_ == "pressure_ratio":
+                    e[c_] = 1.0 + (e[c_] - 1.0) * max(fac, 0.3)
+                else:
+                    e[c_] = e[c_] * (0.8 + 0.2 * fac)
+                net[e["table"]].at[e["index"], c_] = e[c_]
+                changed_steps += 1
+        elif step == "temperature":
+            dt = (fac - 1.0) * 25.0
+            for j in rec["junction"]:
+                j["tfluid_k"] = j["tfluid_k"] + dt
+                net.junction.at[j["index"], "tfluid_k"] = j["tfluid_k"]
+            for e in rec["elements"]:
+                if e["table"] == "ext_grid" and e.get("t_k") is not None:
+                    e["t_k"] = e["t_k"] + dt
+                    net.ext_grid.at[e["index"], "t_k"] = e["t_k"]
+            changed_steps += 1
+        elif step == "pressure":
+            egs = [e for e in rec["elements"] if e["table"] == "ext_grid" and e.get("p_bar") is not None]
+            if egs:
+                e = egs[k % len(egs)]
+                e["p_bar"] = e["p_bar"] * (1.0 + 0.05 * (fac - 1.0))
+                net.ext_grid.at[e["index"], "p_bar"] = e["p_bar"]
+                changed_steps += 1
+        elif step == "length":
+            pipes = [e for e in rec["elements"] if e["table"] == "pipe"]
+            if pipes and fac > 0:
+                e = pipes[k % len(pipes)]
+                e["length_km"] = e["length_km"] * fac
+                net.pipe.at[e["index"], "length_km"] = e["length_km"]
+                changed_steps += 1
+        elif loads and step != "same":
             e = loads[k % len(loads)]
             if step == "scale_value":
                 e["mdot_kg_per_s"] = e["mdot_kg_per_s"] * fac
@@ -301,7 +362,7 @@ def eval_history(case):
                 e["in_service"] = not e.get("in_service", True)
                 net[e["table"]].at[e["index"], "in_service"] = e["in_service"]
             changed_steps += 1
-        r1 = solve(net, only_update_hydraulic_matrix=True, reuse_internal_data=True, **opts)
+        r1 = solve(net, only_update_hydraulic_matrix=True, reuse_internal_data=reuse, **opts)
         fresh = build(rec)
         r2 = solve(fresh, **opts)
         statuses.append(r1.status)
@@ -315,7 +376,7 @@ def eval_history(case):
                 f.append(Finding("history", "C07.history.results.%s" % diffs[0]["table"], dict(diffs[0], step=step,
                                                                                               n_prev=len(statuses) - 1)))
                 break
-    labels = {"history", "mode:" + opts["mode"]} | {"status:" + s for s in statuses}
+    labels = {"history", "mode:" + opts["mode"]} | {"status:" + s for s in statuses} | {"edit:" + s_[0] for s_ in case["steps"]}
     return Outcome(findings=f, labels=labels, nontrivial=changed_steps >= 2 and statuses.count("ok") >= 2,
                    sample={"recipe": abbreviate(case["recipe"]), "options": opts, "steps": case["steps"]})
 
